@@ -158,18 +158,19 @@ theorem nestStyle_E : NestStyle .enc cfgE encOpenLine where
 
 /-- the element loop on a whole text in the `{x}` format, from any clean parser state -/
 theorem loop_enc (d : Decor) (hd : d.ok) (f : Forest) (hok : nodesOk f = true)
-    (s : St) (hclean : Clean [] s.path) (hv : s.valid = 0) :
-    (loop .enc cfgE nodeAppend ({} : Build) Flag.section_ s { rest := renderNest encOpenLine d 0 f }).code = 0
-    ∧ (loop .enc cfgE nodeAppend ({} : Build) Flag.section_ s { rest := renderNest encOpenLine d 0 f }).ctx.forest
-        = norm f := by
-  have := loop_nest nestStyle_E d hd f hok s Flag.section_ (by decide) hclean hv [] false rfl
-  simpa using this
+    (s : St) (hclean : Clean [] s.path) (hv : s.valid = 0) (tail : List UInt8) (b : Bool)
+    (htail : visSkip false tail = some b) :
+    (loop .enc cfgE nodeAppend ({} : Build) Flag.section_ s { rest := renderNest encOpenLine d 0 f ++ tail }).code = 0
+    ∧ (loop .enc cfgE nodeAppend ({} : Build) Flag.section_ s { rest := renderNest encOpenLine d 0 f ++ tail }).ctx.forest
+        = norm f :=
+  loop_nest nestStyle_E d hd f hok s Flag.section_ (by decide) hclean hv tail b htail
 
-theorem parseNode_enc (d : Decor) (hd : d.ok) (f : Forest) (hok : nodesOk f = true) :
-    (parseNode [] (Style.desc .enc) 0xff 0xff (-2) (renderNest encOpenLine d 0 f)).code = 0
-    ∧ (parseNode [] (Style.desc .enc) 0xff 0xff (-2) (renderNest encOpenLine d 0 f)).children = norm f := by
-  obtain ⟨hcode, hforest⟩ := loop_enc d hd f hok ({} : St) clean_init rfl
-  have := parseNode_eq (Style.desc .enc) cfgE 120 .enc (renderNest encOpenLine d 0 f) cfgE_desc (by decide) rfl _ rfl
+theorem parseNode_enc (d : Decor) (hd : d.ok) (f : Forest) (hok : nodesOk f = true)
+    (tail : List UInt8) (b : Bool) (htail : visSkip false tail = some b) :
+    (parseNode [] (Style.desc .enc) 0xff 0xff (-2) (renderNest encOpenLine d 0 f ++ tail)).code = 0
+    ∧ (parseNode [] (Style.desc .enc) 0xff 0xff (-2) (renderNest encOpenLine d 0 f ++ tail)).children = norm f := by
+  obtain ⟨hcode, hforest⟩ := loop_enc d hd f hok ({} : St) clean_init rfl tail b htail
+  have := parseNode_eq (Style.desc .enc) cfgE 120 .enc (renderNest encOpenLine d 0 f ++ tail) cfgE_desc (by decide) rfl _ rfl
     (by unfold parseConfig; exact hcode)
   refine ⟨this.1, ?_⟩
   rw [this.2]
@@ -178,41 +179,81 @@ theorem parseNode_enc (d : Decor) (hd : d.ok) (f : Forest) (hok : nodesOk f = tr
 
 /-! ### sections -/
 
+/-- `mpt_node_append` for a section end at depth 1, behind the section start or behind an option -/
+theorem nodeAppend_end_any (first : Bool) (b : Build) (prev : Nat) (s1 : St) (hm : Mode first 1 b prev) :
+    nodeAppend b s1 prev 2 = some { b with depth := 0 + 1 } := by
+  cases first with
+  | false => exact nodeAppend_end 0 b prev s1 hm
+  | true =>
+    rw [nodeAppend_end_first 1 b prev s1 hm]
+    have : b.depth = 1 := by
+      unfold Mode at hm
+      simp only [↓reduceIte] at hm
+      exact hm.2.2
+    cases b
+    simp only at this
+    subst this
+    rfl
+
 section sections
 variable {k : Kind} {cfg : Cfg} {open_ close : List UInt8} (hst : SectStyle k cfg open_ close) (d : Decor) (hd : d.ok)
 include hst hd
 
 /-- what `flatShape` says about a list of sections -/
-def SectsOk (ts : Forest) : Prop := ts.all (fun t => !isLeaf t && t.children.all isLeaf) = true
+def SectsOk (ts : Forest) : Prop := ts.all sectNode = true
 
-/-- the sections behind an open one: each header ends the open section and starts the next -/
-theorem sections_tail : ∀ (ts : Forest) (kk : Nat) (m : List UInt8) (b : Build) (s : St) (src : Src) (J : List UInt8),
-    SectsOk ts → nodesOk ts = true → Ready [m] s src J (renderFlat d open_ close kk ts) →
-    Mode false 1 b 11 → HasSpine 1 b.forest →
-    (loop k cfg nodeAppend b 11 s src).code = 0
-    ∧ (loop k cfg nodeAppend b 11 s src).ctx.forest = b.forest ++ norm ts := by
+/-- the sections behind an open one: each header ends the open section and starts the next; the text ends
+    with insignificant characters `tail` -/
+theorem sections_tail : ∀ (ts : Forest) (kk : Nat) (m : List UInt8) (b : Build) (prev : Nat) (first : Bool) (s : St)
+    (src : Src) (J tail : List UInt8) (bb : Bool),
+    SectsOk ts → nodesOk ts = true → visSkip false tail = some bb →
+    Ready [m] s src J (renderSects d open_ close kk ts ++ tail) →
+    Mode first 1 b prev → (prev = 9 ∨ prev = 11) → HasSpine 1 b.forest →
+    (loop k cfg nodeAppend b prev s src).code = 0
+    ∧ (loop k cfg nodeAppend b prev s src).ctx.forest = b.forest ++ norm ts := by
   intro ts
   induction ts with
   | nil =>
-    intro kk m b s src J _ _ hr _ _
-    obtain ⟨s2, src2, heof⟩ := hst.eofOpen m s src J false hr.clean hr.junk (by simpa [renderFlat] using hr.src)
-    obtain ⟨hcode, hctx⟩ := loop_stop k cfg b 11 s s2 src src2 heof
+    intro kk m b prev first s src J tail bb _ _ htail hr _ hprev _
+    obtain ⟨s2, src2, heof⟩ := hst.eofOpen m s src prev (J ++ tail) bb hr.clean hprev
+      (visSkip_append _ _ _ _ _ hr.junk htail) (by simpa [renderSects] using hr.src)
+    obtain ⟨hcode, hctx⟩ := loop_stop k cfg b prev s s2 src src2 heof
     exact ⟨hcode, by rw [hctx]; simp [norm]⟩
   | cons t ts ih =>
-    intro kk m b s src J hsh hok hr hm hs
+    intro kk m b prev first s src J tail bb hsh hok htail hr hm hprev hs
     cases t with
     | node n v cs =>
       unfold SectsOk at hsh
-      simp only [List.all_cons, Bool.and_eq_true, Bool.not_eq_eq_eq_not, Bool.not_true] at hsh
-      obtain ⟨⟨hnl, hcl⟩, hrest⟩ := hsh
-      have hce : cs.isEmpty = false := by simpa [isLeaf] using hnl
-      have hcl' : cs.all isLeaf = true := by simpa [Tree.children] using hcl
-      have hok' : (nameOk n = true ∧ v = none ∧ nodesOk cs = true) ∧ nodesOk ts = true := by
-        simp only [nodesOk, treeOk, hce, Bool.false_eq_true, ↓reduceIte, Bool.and_eq_true,
-          Option.isNone_iff_eq_none] at hok
-        exact ⟨⟨hok.1.1, hok.1.2.1, hok.1.2.2⟩, hok.2⟩
-      obtain ⟨⟨hn, hv, hcok⟩, htok⟩ := hok'
-      subst hv
+      simp only [List.all_cons, Bool.and_eq_true] at hsh
+      obtain ⟨hsn, hrest⟩ := hsh
+      simp only [sectNode, Bool.and_eq_true, Bool.or_eq_true, Bool.not_eq_eq_eq_not, Bool.not_true] at hsn
+      obtain ⟨hcl', hval⟩ := hsn
+      have hok' : (nameOk n = true ∧ nodesOk cs = true) ∧ nodesOk ts = true := by
+        simp only [nodesOk, treeOk, Bool.and_eq_true] at hok
+        refine ⟨⟨hok.1.1, ?_⟩, hok.2⟩
+        by_cases hce : cs.isEmpty = true
+        · have : cs = [] := by simpa using hce
+          subst this; rfl
+        · have := hok.1.2
+          simp only [hce, Bool.false_eq_true, ↓reduceIte, Bool.and_eq_true] at this
+          exact this.2
+      obtain ⟨⟨hn, hcok⟩, htok⟩ := hok'
+      -- the node is read back without value
+      have hnorm : normTree (.node n v cs) = .node n none (norm cs) := by
+        by_cases hce : cs.isEmpty = true
+        · have hvl : valueless v = true := by
+            rcases hval with h | h
+            · rw [hce] at h; cases h
+            · exact h
+          cases v with
+          | none => simp [normTree]
+          | some x =>
+            have : x.isEmpty = true := by simpa [valueless] using hvl
+            simp [normTree, this]
+        · have := hok
+          simp only [nodesOk, treeOk, hce, Bool.false_eq_true, ↓reduceIte, Bool.and_eq_true,
+            Option.isNone_iff_eq_none] at this
+          rw [this.1.2.1]; simp [normTree]
       have hlen : n.length < 65535 := by
         have := hn
         simp only [nameOk, Bool.and_eq_true, decide_eq_true_eq] at this
@@ -223,13 +264,13 @@ theorem sections_tail : ∀ (ts : Forest) (kk : Nat) (m : List UInt8) (b : Build
       -- the opening character ends the open section
       have hsrc : src.rest = (J ++ (d kk).before ++ (d kk).indent) ++ open_ ++
           (n ++ close ++ headTrail (d kk) ++ 10 :: (renderOptions d (kk + 1) cs ++
-            renderFlat d open_ close (kk + 1 + cs.length) ts)) := by
+            (renderSects d open_ close (kk + 1 + cs.length) ts ++ tail))) := by
         rw [hr.src]
-        simp [renderFlat, hce, List.append_assoc]
-      obtain ⟨s1, src1, heq1, hp1, hc1, hr1⟩ := hst.headEnd m s src _ _ hr.clean hr.valid hjunk hsrc
-      have hna1 := nodeAppend_end 0 b 11 s1 hm
+        simp [renderSects, List.append_assoc]
+      obtain ⟨s1, src1, heq1, hp1, hc1, hr1⟩ := hst.headEnd m s src prev _ _ hr.clean hr.valid hprev hjunk hsrc
+      have hna1 := nodeAppend_end_any first b prev s1 hm
       obtain ⟨p1, hafter1, hclean1⟩ := del_clean [] m s1.path (by rw [hp1]; exact hr.clean)
-      have hstep1 := loop_step k cfg b _ 11 s s1 src src1 2 p1 heq1 (by decide) hna1 hafter1
+      have hstep1 := loop_step k cfg b _ prev s s1 src src1 2 p1 heq1 (by decide) hna1 hafter1
       rw [hc1] at hstep1
       -- the name of the next section
       obtain ⟨s2, src2, J2, heq2, ⟨l2, fi2, v2, ln2, hs2⟩, hJ2, hr2⟩ :=
@@ -243,46 +284,50 @@ theorem sections_tail : ∀ (ts : Forest) (kk : Nat) (m : List UInt8) (b : Build
       have hm3 : Mode true 1 { forest := appendAt 0 b.forest (.node n none []), depth := 0 + 1 } s2.curr := by
         rw [hcurr2]; simp [Mode, Flag.sectEnd]
       have hr3 : Ready ([] ++ [n]) { s2 with path := Pth ([] ++ [n]) [] false fi2, curr := 0, valid := 0 } src2 J2
-          (renderOptions d (kk + 1) cs ++ renderFlat d open_ close (kk + 1 + cs.length) ts) :=
+          (renderOptions d (kk + 1) cs ++ (renderSects d open_ close (kk + 1 + cs.length) ts ++ tail)) :=
         ⟨clean_pth _ _, rfl, hJ2, hr2⟩
       obtain ⟨b4, prev4, s4, src4, J4, hr4, hm4, hp4, hf4, hs4, heq4⟩ :=
         options_claim hst.toOptStyle d hd cs (kk + 1) 1 ([] ++ [n]) _ s2.curr _ src2 J2 _ true hcl' hcok hr3 hm3
           (by rw [hcurr2]; exact Or.inr (Or.inl rfl))
           (hasSpine_appendAt_succ 0 b.forest n none [] trivial)
-      simp only [hce, Bool.and_false, Bool.false_eq_true, ↓reduceIte] at hm4 hp4
-      subst hp4
+      have hprev4 : prev4 = 9 ∨ prev4 = 11 := by
+        rw [hp4, hcurr2]; split
+        · exact Or.inl rfl
+        · exact Or.inr rfl
       -- the remaining sections
-      obtain ⟨hcode, hforest⟩ := ih (kk + 1 + cs.length) n b4 s4 src4 J4 hrest htok
-        (by simpa using hr4) hm4 hs4
-      have hall : loop k cfg nodeAppend b 11 s src = loop k cfg nodeAppend b4 11 s4 src4 := by
+      obtain ⟨hcode, hforest⟩ := ih (kk + 1 + cs.length) n b4 prev4 (true && cs.isEmpty) s4 src4 J4 tail bb hrest htok
+        htail (by simpa using hr4) hm4 hprev4 hs4
+      have hall : loop k cfg nodeAppend b prev s src = loop k cfg nodeAppend b4 prev4 s4 src4 := by
         rw [hstep1, hstep2]
         simp only [hs2] at heq4 ⊢
         exact heq4
       rw [hall]
       refine ⟨hcode, ?_⟩
       rw [hforest, hf4, appendAll_child 0 b.forest n none (norm cs) trivial]
-      simp [norm, normTree, appendAt]
+      simp [norm, hnorm, appendAt]
 
-/-- a whole flat forest: options, then sections, then the end of the text -/
-theorem flat_claim : ∀ (f : Forest) (kk : Nat) (b : Build) (prev : Nat) (s : St) (src : Src) (J : List UInt8)
-    (first : Bool),
-    flatShape f = true → nodesOk f = true → Ready [] s src J (renderFlat d open_ close kk f) →
+/-- a whole flat forest: options, then sections, then the end of the text (`tail`: insignificant characters) -/
+theorem flat_claim : ∀ (f : Forest) (kk : Nat) (b : Build) (prev : Nat) (s : St) (src : Src) (J tail : List UInt8)
+    (first bb : Bool),
+    flatShape f = true → nodesOk f = true → visSkip false tail = some bb →
+    Ready [] s src J (renderFlat d open_ close kk f ++ tail) →
     Mode first 0 b prev → (prev = 1 ∨ prev = 11) →
     (loop k cfg nodeAppend b prev s src).code = 0
     ∧ (loop k cfg nodeAppend b prev s src).ctx.forest = b.forest ++ norm f := by
   intro f
   induction f with
   | nil =>
-    intro kk b prev s src J first _ _ hr _ hp
+    intro kk b prev s src J tail first bb _ _ htail hr _ hp
     have hpo : PrevOpt prev := by
       rcases hp with h | h
       · exact Or.inl h
       · exact Or.inr (Or.inr h)
-    obtain ⟨s2, src2, heof⟩ := hst.eof s src prev J false hr.clean hpo hr.junk (by simpa [renderFlat] using hr.src)
+    obtain ⟨s2, src2, heof⟩ := hst.eof s src prev (J ++ tail) bb hr.clean hpo (visSkip_append _ _ _ _ _ hr.junk htail)
+      (by simpa [renderFlat] using hr.src)
     obtain ⟨hcode, hctx⟩ := loop_stop k cfg b prev s s2 src src2 heof
     exact ⟨hcode, by rw [hctx]; simp [norm]⟩
   | cons t ts ih =>
-    intro kk b prev s src J first hsh hok hr hm hp
+    intro kk b prev s src J tail first bb hsh hok htail hr hm hp
     have hpo : PrevOpt prev := by
       rcases hp with h | h
       · exact Or.inl h
@@ -295,15 +340,15 @@ theorem flat_claim : ∀ (f : Forest) (kk : Nat) (b : Build) (prev : Nat) (s : S
         subst hcs
         have hsh' : flatShape ts = true := by simpa [flatShape] using hsh
         have hok' : treeOk (.node n v []) = true ∧ nodesOk ts = true := by simpa [nodesOk] using hok
-        have hr1 : Ready [] s src J (renderOptions d kk [.node n v []] ++ renderFlat d open_ close (kk + 1) ts) := by
+        have hr1 : Ready [] s src J (renderOptions d kk [.node n v []] ++ (renderFlat d open_ close (kk + 1) ts ++ tail)) := by
           refine ⟨hr.clean, hr.valid, hr.junk, ?_⟩
-          rw [hr.src]; simp [renderFlat, renderOptions]
+          rw [hr.src]; simp [renderFlat, renderOptions, List.append_assoc]
         obtain ⟨b2, prev2, s2, src2, J2, hr2, hm2, hp2, hf2, _, heq2⟩ :=
           options_claim hst.toOptStyle d hd [.node n v []] kk 0 [] b prev s src J _ first (by simp [isLeaf])
             (by simp [nodesOk, hok'.1]) hr1 hm hpo trivial
         simp only [List.isEmpty_cons, Bool.and_false, Bool.false_eq_true, ↓reduceIte] at hm2 hp2
         subst hp2
-        obtain ⟨hcode, hforest⟩ := ih (kk + 1) b2 11 s2 src2 J2 false hsh' hok'.2 hr2 hm2 (Or.inr rfl)
+        obtain ⟨hcode, hforest⟩ := ih (kk + 1) b2 11 s2 src2 J2 tail false bb hsh' hok'.2 htail hr2 hm2 (Or.inr rfl)
         rw [heq2]
         refine ⟨hcode, ?_⟩
         rw [hforest, hf2]
@@ -326,9 +371,9 @@ theorem flat_claim : ∀ (f : Forest) (kk : Nat) (b : Build) (prev : Nat) (s : S
         obtain ⟨_, _, htr, hht⟩ := LineDecor.ok_parts _ hdk
         have hjunk := visSkip_lead J (d kk) hr.junk hdk
         have hsrc : src.rest = (J ++ (d kk).before ++ (d kk).indent) ++ open_ ++ n ++ close ++ headTrail (d kk) ++
-            10 :: (renderOptions d (kk + 1) cs ++ renderFlat d open_ close (kk + 1 + cs.length) ts) := by
+            10 :: (renderOptions d (kk + 1) cs ++ (renderSects d open_ close (kk + 1 + cs.length) ts ++ tail)) := by
           rw [hr.src]
-          simp [renderFlat, hce', List.append_assoc]
+          simp [renderFlat, renderSects, hce', List.append_assoc]
         obtain ⟨s1, src1, J1, heq1, ⟨l1, fi1, v1, ln1, hs1⟩, hJ1, hr1⟩ :=
           hst.headFirst s src prev _ n (headTrail (d kk)) _ hr.clean hr.valid hp hjunk hn hht hsrc
         have hna1 := nodeAppend_new first 0 b prev s1 1 [] n none hm (Or.inl ⟨rfl, rfl⟩) (by rw [hs1]; rfl) hlen
@@ -338,7 +383,7 @@ theorem flat_claim : ∀ (f : Forest) (kk : Nat) (b : Build) (prev : Nat) (s : S
         have hm2 : Mode true 1 { forest := appendAt 0 b.forest (.node n none []), depth := 0 + 1 } s1.curr := by
           rw [hcurr1]; simp [Mode, Flag.sectEnd]
         have hr2 : Ready ([] ++ [n]) { s1 with path := Pth ([] ++ [n]) [] false fi1, curr := 0, valid := 0 } src1 J1
-            (renderOptions d (kk + 1) cs ++ renderFlat d open_ close (kk + 1 + cs.length) ts) :=
+            (renderOptions d (kk + 1) cs ++ (renderSects d open_ close (kk + 1 + cs.length) ts ++ tail)) :=
           ⟨clean_pth _ _, rfl, hJ1, hr1⟩
         obtain ⟨b3, prev3, s3, src3, J3, hr3, hm3, hp3, hf3, hs3, heq3⟩ :=
           options_claim hst.toOptStyle d hd cs (kk + 1) 1 ([] ++ [n]) _ s1.curr _ src1 J1 _ true hcl hcok hr2 hm2
@@ -346,8 +391,8 @@ theorem flat_claim : ∀ (f : Forest) (kk : Nat) (b : Build) (prev : Nat) (s : S
             (hasSpine_appendAt_succ 0 b.forest n none [] trivial)
         simp only [hce', Bool.and_false, Bool.false_eq_true, ↓reduceIte] at hm3 hp3
         subst hp3
-        obtain ⟨hcode, hforest⟩ := sections_tail hst d hd ts (kk + 1 + cs.length) n b3 s3 src3 J3 hrest htok
-          (by simpa using hr3) hm3 hs3
+        obtain ⟨hcode, hforest⟩ := sections_tail hst d hd ts (kk + 1 + cs.length) n b3 11 false s3 src3 J3 tail bb hrest
+          htok htail (by simpa using hr3) hm3 (Or.inr rfl) hs3
         have hall : loop k cfg nodeAppend b prev s src = loop k cfg nodeAppend b3 11 s3 src3 := by
           rw [hstep1]
           simp only [hs1] at heq3 ⊢
@@ -363,13 +408,14 @@ end sections
 theorem parseNode_flat {k : Kind} {cfg : Cfg} {open_ close : List UInt8} (hst : SectStyle k cfg open_ close)
     (desc : Option (List UInt8)) (t : UInt8) (hdesc : parseFormat desc = (cfg.fmt, t)) (hk : Kind.ofType t = some k)
     (hcfg : cfg = { fmt := cfg.fmt, sect := 0xff, opt := 0xff, eof := -2 })
-    (d : Decor) (hd : d.ok) (f : Forest) (hsh : flatShape f = true) (hok : nodesOk f = true) :
-    (parseNode [] desc 0xff 0xff (-2) (renderFlat d open_ close 0 f)).code = 0
-    ∧ (parseNode [] desc 0xff 0xff (-2) (renderFlat d open_ close 0 f)).children = norm f := by
+    (d : Decor) (hd : d.ok) (f : Forest) (hsh : flatShape f = true) (hok : nodesOk f = true)
+    (tail : List UInt8) (bb : Bool) (htail : visSkip false tail = some bb) :
+    (parseNode [] desc 0xff 0xff (-2) (renderFlat d open_ close 0 f ++ tail)).code = 0
+    ∧ (parseNode [] desc 0xff 0xff (-2) (renderFlat d open_ close 0 f ++ tail)).children = norm f := by
   obtain ⟨hcode, hforest⟩ := flat_claim hst d hd f 0 ({} : Build) Flag.section_ ({} : St)
-    { rest := renderFlat d open_ close 0 f } [] true hsh hok ⟨clean_init, rfl, rfl, by simp⟩
+    { rest := renderFlat d open_ close 0 f ++ tail } [] tail true bb hsh hok htail ⟨clean_init, rfl, rfl, by simp⟩
     (by simp [Mode, Flag.section_, Flag.sectEnd]) (Or.inl rfl)
-  have := parseNode_eq desc cfg t k (renderFlat d open_ close 0 f) hdesc hk hcfg _ rfl
+  have := parseNode_eq desc cfg t k (renderFlat d open_ close 0 f ++ tail) hdesc hk hcfg _ rfl
     (by unfold parseConfig; exact hcode)
   refine ⟨this.1, ?_⟩
   rw [this.2]
